@@ -348,7 +348,9 @@ func init() {
 			return false, ""
 		})
 		// inside privval, Sign on the validator key happens only in functions that run CheckHRS first (C02.R5)
-		c.onlyIn("PrivKey.Sign in privval", filterSites(w.allCallsTo(sign), func(s Site) bool { return relPkg(s.Fn) == "privval" && !strings.Contains(w.Fset.Position(s.Fn.Pos()).Filename, "signer") }), func(f *ssa.Function) (bool, string) {
+		c.onlyIn("PrivKey.Sign in privval", filterSites(w.allCallsTo(sign), func(s Site) bool {
+			return relPkg(s.Fn) == "privval" && !strings.Contains(w.Fset.Position(s.Fn.Pos()).Filename, "signer")
+		}), func(f *ssa.Function) (bool, string) {
 			if len(w.callsTo(f, "privval#FilePVLastSignState.CheckHRS")) > 0 {
 				return true, "double-sign-checked signing function"
 			}
